@@ -183,7 +183,9 @@ fn open_case() -> impl Strategy<Value = OpenCase> {
         ts_strategy(),
         prop_oneof![3 => Just(None), 1 => ts_strategy().prop_map(Some)],
         -3i64..=3,
-        prop_oneof![3 => 0u32..=7200, 1 => any::<u32>(), 1 => (0u32..=3).prop_map(|d| u32::MAX - d), 1 => 999_999_990u32..=1_000_000_010],
+        prop_oneof![3 => 0u32..=7200, 1 => any::<u32>(), 1 => (0u32..=3).prop_map(|d| u32::MAX - d), 1 => 999_999_990u32..=1_000_000_010,
+                    // exact multiples of one second in nanoseconds (incl. 0) and their neighbours
+                    2 => (0u32..=4, -1i64..=1).prop_map(|(k, o)| (k as i64 * 1_000_000_000 + o).clamp(0, u32::MAX as i64) as u32)],
         any::<bool>(),
         prop_oneof![3 => Just(true), 1 => Just(false)],
         prop_oneof![3 => 0u32..=7200, 1 => any::<u32>(), 1 => (0u32..=3).prop_map(|d| u32::MAX - d)],
@@ -195,7 +197,7 @@ fn open_case() -> impl Strategy<Value = OpenCase> {
             // either an independent report timestamp or one within a few seconds of `current - timeout`
             let ts = match ts_free {
                 Some(t) => t,
-                None => current.saturating_sub(timeout as i64).saturating_add(near).saturating_add(if secs { diff.min(10_000) as i64 } else { 0 }),
+                None => current.saturating_sub(timeout as i64).saturating_add(near).saturating_add(if secs { diff.min(10_000) as i64 } else { diff.div_ceil(1_000_000_000) as i64 }),
             };
             OpenCase { current, ts, diff, secs, tracking, timeout, status, flags, open_flag }
         })
@@ -266,7 +268,17 @@ pub struct DecCase {
 }
 
 fn dec_case() -> impl Strategy<Value = DecCase> {
-    (u128_mix(), i128_mix(), u64_mix(), i64_mix(), prop_oneof![4 => 0u8..=28, 1 => 29u8..=50, 1 => Just(20u8), 1 => any::<u8>()])
+    // the band between the largest 96-bit mantissa and the next power of ten (2^96 .. 10^29) is where the
+    // "needs scaling" decision of the SDK flips; it is ~6e-11 of the u128 range, so it gets its own arms
+    let band_u = || prop_oneof![
+        1 => (MAX_REPR - 2)..=(MAX_REPR + 3),
+        1 => (MAX_REPR + 1)..10u128.pow(29),
+        1 => (10u128.pow(29) - 3)..=(10u128.pow(29) + 3),
+        1 => (10u128.pow(28) - 3)..=(10u128.pow(28) + 3),
+    ];
+    let u = prop_oneof![6 => u128_mix(), 1 => band_u()];
+    let i = prop_oneof![6 => i128_mix(), 1 => (band_u(), any::<bool>()).prop_map(|(m, neg)| if neg { -(m as i128) } else { m as i128 })];
+    (u, i, u64_mix(), i64_mix(), prop_oneof![4 => 0u8..=28, 1 => 29u8..=50, 1 => Just(20u8), 1 => any::<u8>()])
         .prop_map(|(u, i, a, s, decimals)| DecCase { u, i, a, s, decimals })
 }
 
@@ -317,6 +329,28 @@ fn check_dec(c: &DecCase, rec: &mut Rec, kf_open: bool) -> Result<(), String> {
         if c.u <= MAX_REPR && d <= 28 {
             return Err(format!("representable value {} with {d} decimals was rejected", c.u));
         }
+    }
+    // the infallible 20-decimals wrappers: never panic, and give the value truncated to the kept digits
+    {
+        let dec = no_panic(|| unsigned_value_to_decimal(c.u)).map_err(|p| format!("unsigned_value_to_decimal({}) panicked: {p}", c.u))?;
+        let scale = dec.scale();
+        if scale > 20 {
+            return Err(format!("unsigned_value_to_decimal({}) has scale {scale} > 20", c.u));
+        }
+        let diff = b(c.u) - b(dec.mantissa()) * pow10(20 - scale);
+        if diff.is_negative() || diff >= pow10(20 - scale) {
+            return Err(format!("unsigned_value_to_decimal({}) = {dec} is not a truncation of the value", c.u));
+        }
+        let sdec = no_panic(|| signed_value_to_decimal(c.i)).map_err(|p| format!("signed_value_to_decimal({}) panicked: {p}", c.i))?;
+        let sscale = sdec.scale();
+        if sscale > 20 {
+            return Err(format!("signed_value_to_decimal({}) has scale {sscale} > 20", c.i));
+        }
+        let sdiff = b(c.i.unsigned_abs()) - b(sdec.mantissa().unsigned_abs()) * pow10(20 - sscale);
+        if sdiff.is_negative() || sdiff >= pow10(20 - sscale) || (c.i < 0 && sdec.is_sign_positive() && !sdec.is_zero()) {
+            return Err(format!("signed_value_to_decimal({}) = {sdec} is not a truncation of the value", c.i));
+        }
+        rec.class_if(c.u > MAX_REPR && c.u < 10u128.pow(29), "band_between_2_96_and_1e29");
     }
     // signed fixed
     match no_panic(|| signed_fixed_to_decimal(c.i, d)) {
@@ -376,7 +410,7 @@ fn check_dec(c: &DecCase, rec: &mut Rec, kf_open: bool) -> Result<(), String> {
 }
 
 pub fn run_c43(ctx: &mut Ctx) {
-    ctx.rule("cases = u128 / i128 / u64 / i64 mixtures x decimals 0..=28 (4/7), 29..=50, 20 and arbitrary u8; oracle = values <= 2^96-1 with decimals <= 28 convert exactly and round-trip through decimal_to_value / decimal_to_signed_value / decimal_to_amount; larger values must become a pure truncation (0 <= u - dec*10^d < 10^dropped) or be rejected; amounts beyond 28 decimals drop exactly the extra digits; no call panics; negative decimals are not amounts; non-trivial = value above 2^96, decimals above 28, or negative");
+    ctx.rule("cases = u128 / i128 / u64 / i64 mixtures x decimals 0..=28 (4/7), 29..=50, 20 and arbitrary u8; oracle = values <= 2^96-1 with decimals <= 28 convert exactly and round-trip through decimal_to_value / decimal_to_signed_value / decimal_to_amount; larger values must become a pure truncation (0 <= u - dec*10^d < 10^dropped) or be rejected; amounts beyond 28 decimals drop exactly the extra digits; no call panics (incl. the infallible 20-decimals wrappers unsigned_value_to_decimal / signed_value_to_decimal, which must give a truncation; the band 2^96..1e29 where the SDK's scaling decision flips has its own generator arms); negative decimals are not amounts; non-trivial = value above 2^96, decimals above 28, or negative");
     let kf = ctx.finding_open("KF-C43-1");
     {
         let r = no_panic(|| gmsol_sdk::utils::fixed::unsigned_fixed_to_decimal(10u128.pow(30), 40));
@@ -386,4 +420,5 @@ pub fn run_c43(ctx: &mut Ctx) {
     ctx.search("decimal_round_trip", n, dec_case, move |c, rec| check_dec(c, rec, kf));
     ctx.floor("decimal_round_trip:exact_round_trip", 10_000);
     ctx.floor("decimal_round_trip:lossy_truncated", 5_000);
+    ctx.floor("decimal_round_trip:band_between_2_96_and_1e29", 5_000);
 }
